@@ -216,6 +216,10 @@ def run_lemma(path, lemma_name, tier="quick"):
         I.covers = {}
         I.cur_lemma = lemma_name
         loop_invariants_of(mi, I)
+        for q, fname in (opts.get("stubs") or {}).items():
+            if fname not in mi.defs:
+                raise Unsupported("stub function %s not defined in harness" % fname)
+            I.stubs[q] = FuncVal(mi.defs[fname], mi)
         st = St()
         vars = {}
         for a in node.args.args:
